@@ -220,6 +220,12 @@ func drawSimConfig(r *simrt.Rand, maxSteps int) (simrt.Config, string) {
 		cfg.Strategy = simrt.StratRR
 		name = "rr"
 	}
+	// timer channel semantics: Go < 1.23 (what mosdns' "go 1.22.0" go.mod selects
+	// in a real build) two times out of three, Go 1.23+ otherwise
+	cfg.OldTimers = r.Choose(3) != 0
+	if cfg.OldTimers {
+		name += "+oldtimers"
+	}
 	return cfg, name
 }
 
